@@ -302,17 +302,19 @@ where
                 n.pstack.clone(),
                 &mut None,
             );
-            if new_laidx > laidx {
+            // A repair sequence whose cost can't be represented is too expensive to consider.
+            if new_laidx > laidx
+                && let Some(cf) = n
+                    .cf
+                    .checked_add(u16::from((self.parser.token_cost)(tidx)))
+            {
                 let nn = PathFNode {
                     pstack: n_pstack,
                     laidx: n.laidx,
                     repairs: n
                         .repairs
                         .child(RepairMerge::Repair(Repair::InsertTerm(tidx))),
-                    cf: n
-                        .cf
-                        .checked_add(u16::from((self.parser.token_cost)(tidx)))
-                        .unwrap(),
+                    cf,
                 };
                 nbrs.push((nn.cf, nn));
             }
@@ -326,13 +328,16 @@ where
 
         let la_tidx = self.parser.next_tidx(n.laidx);
         let cost = (self.parser.token_cost)(la_tidx);
-        let nn = PathFNode {
-            pstack: n.pstack.clone(),
-            laidx: n.laidx + 1,
-            repairs: n.repairs.child(RepairMerge::Repair(Repair::Delete)),
-            cf: n.cf.checked_add(u16::from(cost)).unwrap(),
-        };
-        nbrs.push((nn.cf, nn));
+        // A repair sequence whose cost can't be represented is too expensive to consider.
+        if let Some(cf) = n.cf.checked_add(u16::from(cost)) {
+            let nn = PathFNode {
+                pstack: n.pstack.clone(),
+                laidx: n.laidx + 1,
+                repairs: n.repairs.child(RepairMerge::Repair(Repair::Delete)),
+                cf,
+            };
+            nbrs.push((nn.cf, nn));
+        }
     }
 
     fn shift(&self, n: &PathFNode<StorageT>, nbrs: &mut Vec<(u16, PathFNode<StorageT>)>) {
